@@ -39,6 +39,7 @@ type ModItem struct {
 	Name string   // ghost name
 	Expr ast.Expr // field path or slice expression
 	Src  string
+	But  []ast.Expr // membut(a, b): all byte memory except the arrays of these slices
 }
 
 type LoopSpec struct {
@@ -723,6 +724,18 @@ func (p *contractParser) modifies(rest string) (items []ModItem, all bool, err e
 		}
 		if part == "mem" {
 			items = append(items, ModItem{Kind: modMem, Src: part})
+			continue
+		}
+		if strings.HasPrefix(part, "membut(") && strings.HasSuffix(part, ")") {
+			mi := ModItem{Kind: modMem, Src: part}
+			for _, a := range splitTopLevel(part[7:len(part)-1], ",") {
+				e, err := parseSpecExpr(strings.TrimSpace(a))
+				if err != nil {
+					return nil, false, err
+				}
+				mi.But = append(mi.But, e)
+			}
+			items = append(items, mi)
 			continue
 		}
 		if strings.HasPrefix(part, "alltype(") && strings.HasSuffix(part, ")") {
